@@ -560,3 +560,10 @@ impl<'a> SassParser<'a> {
         }
     }
 }
+
+#[cfg(feature = "verif-hooks")]
+impl<'a> SassParser<'a> {
+    pub fn verif_peek_indentation(&mut self) -> SassResult<usize> {
+        self.peek_indentation()
+    }
+}
